@@ -471,14 +471,18 @@ def run_case(md, case):
                             prop.append({"step": si, "kind": "field-not-numpy-index", "field": nm})
             elif name == "remove_solvent":
                 _, r, inplace = op
+                tsnap = np.array(regs[r]._time, copy=True)
                 out = regs[r].remove_solvent(inplace=inplace)
                 if not inplace:
                     new = out
+                if not np.array_equal(out.time, tsnap) or np.asarray(out.time).dtype != tsnap.dtype:
+                    prop.append({"step": si, "kind": "field-not-numpy-index", "field": "time"})
             elif name == "restrict_atoms":
                 # deprecated alias of atom_slice (same model operation); its default is inplace=True
                 _, r, idx, inplace = op
                 t = regs[r]
                 snap = np.array(t._xyz, copy=True)
+                tsnap_r = np.array(t._time, copy=True)
                 out = t.restrict_atoms([int(i) for i in idx], inplace=inplace) if not inplace or (si % 2) else \
                     t.restrict_atoms([int(i) for i in idx])
                 if inplace:
@@ -488,6 +492,8 @@ def run_case(md, case):
                     new = out
                 if not np.array_equal(out.xyz, snap[:, [int(i) for i in idx]]):
                     prop.append({"step": si, "kind": "field-not-numpy-index", "field": "xyz(atoms)"})
+                if not np.array_equal(out.time, tsnap_r):
+                    prop.append({"step": si, "kind": "field-not-numpy-index", "field": "time"})
             elif name == "image":
                 # ["image", r, "whole" | "image", inplace]: make_molecules_whole / image_molecules.  What the kernel computes
                 # is not modelled: the coordinates it leaves are recorded as a fresh data source (see coq/Traj/Extra.v)
